@@ -594,6 +594,20 @@ def hasDesc (t : TraitType) : Bool := (descOf E t).isSome
 def ctraitValidate (t : TraitType) (v : Val) : Res :=
   ctraitValidateWith E (descOf E t) (hasPy t) (pyValidate E t) v
 
+/-- `_TraitMaker.define` (traits.py:262-360) for the definitions that mix enumerated
+constants with members — `Trait(default, c1, …, T1, …)`, `Either(c1, …, T1, …)` (whose
+default is None): `do_list` sorts the constants into `enum` and the members into
+`other`; the DEFAULT is added to the constants only when the definition has
+constants ALONE and does not list it (322-326); a TraitEnum of the constants is
+appended after the members (328); one handler is used as it is, several become a
+TraitCompound (334-360). -/
+def traitMaker (dflt : Val) (consts : List Val) (members : List TraitType) : TraitType :=
+  match consts, members with
+  | [], [m] => m
+  | [], ms => .compoundH ms
+  | cs, [] => .enumH (if seqContains cs dflt == .yes then cs else dflt :: cs)
+  | cs, ms => .compoundH (ms ++ [.enumH cs])
+
 /-- What assignment validates with: the CTrait's validator. -/
 abbrev validate (tt : TraitType) (v : Val) : Res := ctraitValidate E tt v
 
